@@ -74,9 +74,7 @@ func RunC10(tier string) int {
 		if pre > 0 {
 			run.Nontrivial(strings.Join(v.Trace, " "))
 		}
-		if i < 2 {
-			run.Sample(map[string]any{"contenders": np, "pre_existing_lock_file": pe, "schedule": v.Trace})
-		}
+		run.Sample(map[string]any{"contenders": np, "pre_existing_lock_file": pe, "schedule": v.Trace})
 		if v.Violation != "" {
 			run.Violation(v.Violation, v.What, map[string]any{"contenders": np, "pre_existing_lock_file": pe, "schedule": v.Trace})
 		}
